@@ -97,6 +97,16 @@ def make_callable(params, kind, tag):
     if kind == "method":
         holder = type(f"H_{uniq}", (), {uniq: fn})()
         res = getattr(holder, uniq)
+    elif kind == "wrapped":
+        # an ordinary decorator: functools.wraps keeps the signature discoverable, the wrapper itself takes (*a, **k)
+        def _decorate(f):
+            @functools.wraps(f)
+            def wrapper(*a, **k):
+                return f(*a, **k)
+
+            return wrapper
+
+        res = _decorate(fn)
     elif kind == "partial":
         # preset the last keyword-capable named parameter, if any
         cands = [p for p in params if p[0] in ("pk", "ko")]
@@ -213,6 +223,9 @@ def tasks(tier):
     for kind in kinds:
         for lo in range(0, len(sigs1), chunk):
             out.append({"level": 1, "kind": kind, "n": n, "lo": lo, "hi": min(len(sigs1), lo + chunk)})
+    for lo in range(0, len(sigs1), chunk):
+        if not quick or (lo // chunk) % 3 == 0:
+            out.append({"level": 1, "kind": "wrapped", "n": n, "lo": lo, "hi": min(len(sigs1), lo + chunk)})
     sigs2 = gen_signatures(2 if quick else 3, ORDERS_L2)
     chunk2 = 6
     for engine in ("sync", "async"):
@@ -228,9 +241,9 @@ BUDGET = {
 }
 BOUNDS = {
     "quick": "level 1 (callable_method(f)(*a, **kw)): every legal signature with <= 3 named parameters (<=1 positional-only, <=2 positional-or-keyword, "
-    "<=2 keyword-only, optional *args / **kwargs, every default placement, two name assignments mixing user and reserved names), as plain function and bound "
-    "method, each path binding all of 0..3 positional arguments x every subset of keywords {x, y, source, q}; level 2 (sm.send end-to-end, sync and async engine): signatures with "
-    "<= 2 named parameters as an `on_go` method, an `on_enter_b` method and a guard used as `cond='not veto'`, 0..2 positional arguments, keyword subsets of {x, source, machine, key} (two of them reserved names, `key` undeclared), plus the same signature on the event that an "
+    "<=2 keyword-only, optional *args / **kwargs, every default placement, two name assignments mixing user and reserved names), as plain function, bound "
+    "method and (a third of the signatures) behind a functools.wraps decorator, each path binding all of 0..3 positional arguments x every subset of keywords {x, y, source, q}; level 2 (sm.send end-to-end, sync and async engine): signatures with "
+    "<= 2 named parameters as an `on_go` method, an `on_enter_b` method and a guard used as `cond='not veto and zero <= veto'` (under a negation and as the right operand of a comparison), 0..2 positional arguments, keyword subsets of {x, source, machine, key} (two of them reserved names, `key` undeclared), plus the same signature on the event that an "
     "`after='hop'` action forwards to; level 3: every ordered pair out of 12 callables that share one qualified name and differ in parameter kinds, keyword-only names or defaults, bound one after the other.",
     "thorough": "<= 4 named parameters at level 1 also as functools.partial and coroutine function; <= 3 named at level 2.",
 }
@@ -375,7 +388,9 @@ def l2_machine(sig, engine):
         "c": State(),
     }
     # the guard is used under a negation inside an expression, so it is called through the expression combinators
-    attrs["go"] = attrs["a"].to(attrs["b"], cond="not veto", after="hop")
+    # ... and as the right operand of a comparison (0 <= False), called through the comparison combinator
+    attrs["go"] = attrs["a"].to(attrs["b"], cond="not veto and zero <= veto", after="hop")
+    attrs["zero"] = 0
     attrs["hop"] = attrs["b"].to(attrs["c"]) | attrs["c"].to(attrs["a"])
     attrs["on_go"] = m
     attrs["on_hop"] = m
@@ -449,10 +464,10 @@ def l2_one(ctx, sm, sig, args, ukw, tag):
         return
     if outcome == "TypeError":
         raise Mismatch(f"spurious-TypeError:{tag}", f"on_go({describe(sig)}) with {len(args)} positional, keywords {sorted(ukw)}: {err}")
-    if len(sm.seen) != 3 or len(sm.seen_guard) != 1:
-        raise Mismatch(f"callback-count:{tag}", f"expected the guard once and on_go, on_enter_b, on_hop (forwarded); saw {len(sm.seen_guard)} + {len(sm.seen)} call(s)")
-    views = [builtins_for("a", "b", "go"), builtins_for("a", "b", "go"), builtins_for("a", "b", "go"), builtins_for("b", "c", "hop")]
-    for got, view, which in zip(sm.seen_guard + sm.seen, views, ("guard under `not`", "on_go", "on_enter_b", "forwarded on_hop")):
+    if len(sm.seen) != 3 or len(sm.seen_guard) != 2:
+        raise Mismatch(f"callback-count:{tag}", f"expected the guard twice (under `not`, and as operand of `<=`) and on_go, on_enter_b, on_hop (forwarded); saw {len(sm.seen_guard)} + {len(sm.seen)} call(s)")
+    views = [builtins_for("a", "b", "go"), builtins_for("a", "b", "go"), builtins_for("a", "b", "go"), builtins_for("a", "b", "go"), builtins_for("b", "c", "hop")]
+    for got, view, which in zip(sm.seen_guard + sm.seen, views, ("guard under `not`", "guard as right operand of `<=`", "on_go", "on_enter_b", "forwarded on_hop")):
         for k, e in exp.items():
             if k == "**":
                 g = {kk: vv for kk, vv in got["**"].items() if kk not in RESERVED}
